@@ -66,7 +66,7 @@ def data_source(fmt, table, name="data"):
     import xlsxwriter
 
     path = os.path.join(readermachine.tmpdir(), "%s_%d.xlsx" % (name, os.getpid()))
-    workbook = xlsxwriter.Workbook(path)
+    workbook = harness.new_workbook(path)
     sheet = workbook.add_worksheet()
     for y, row in enumerate(table):
         for x, cell in enumerate(row):
@@ -303,7 +303,7 @@ def cid_container(storage, fmt):
             import xlsxwriter
 
             path = os.path.join(readermachine.tmpdir(), "cidc_%d.xlsx" % os.getpid())
-            workbook = xlsxwriter.Workbook(path)
+            workbook = harness.new_workbook(path)
             sheet = workbook.add_worksheet()
             for y, row in enumerate(rows):
                 for x, cell in enumerate(row):
